@@ -17,8 +17,9 @@
    code, which cannot encode a non-empty list (AttributeError) and decodes the
    packed array wrongly - see tlv8_sequ16_refuted below (known finding).  The fuel
    [n] of [enc]/[dec]/[wf]/[fits] is the nesting depth; theorems hold for every n. *)
-From Coq Require Import List NArith Arith Bool Lia Permutation.
+From Coq Require Import List NArith ZArith Arith Bool Lia Permutation.
 From AHK Require Import Lib.Res Lib.ByteStr Model.Tlv8 Proofs.Tlv8Iter Proofs.Tlv8 Proofs.Tlv8Order.
+From AHK Require Import Proofs.Tlv8Exact Model.Tlv8Sig Proofs.Tlv8Sig.
 Import ListNotations.
 
 Lemma F255 : 0 < 255. Proof. lia. Qed.
@@ -120,6 +121,17 @@ Theorem tlv8_sequ16_single_id : forall lo hi,
     lo <> 0%N -> tlv8_decode (TSeqInt U16) [lo; hi] = Ok (VIds [(lo + 256 * (hi + 256 * 0))%N]).
 Proof. exact sequ16_single_id_ok. Qed.
 
+(* EXACTLY which packed id lists the current decoder gets right (sharp boundary of
+   the known finding): zero ids - each "00 00" happens to be a well-formed list
+   separator and an empty piece decodes to 0 - optionally followed by ONE last id
+   whose low byte is not zero.  Every other list of in-range ids is decoded wrongly
+   or raises IndexError.  harness/c16.py evaluates the same predicate to tell the
+   known defect from a new one. *)
+Theorem tlv8_sequ16_exact : forall l,
+    forallb (irange U16) l = true ->
+    (tlv8_decode (TSeqInt U16) (concat (map (ienc U16) l)) = Ok (VIds l) <-> sequ16_good l = true).
+Proof. exact sequ16_exact. Qed.
+
 (* ---- fragment boundaries ------------------------------------------------------- *)
 (* one iterator step over the fragments of a value of ANY length (in particular
    255*k, where the last fragment is full and the look-ahead reads the next byte):
@@ -143,6 +155,54 @@ Theorem tlv8_array_split : forall Ls,
     Forall elem_ok Ls -> Ls <> [] ->
     tlv8_array (join [0%N; 0%N] (map (render 255) Ls)) = (map (render 255) Ls, FinOk).
 Proof. exact (tlv_array_join 255 F255). Qed.
+
+(* ---- the iterator and the list splitter on ARBITRARY bytes; model totality -------- *)
+(* a successful iterator step consumes exactly pre ++ type :: length :: data, and at
+   least the two header bytes *)
+Theorem tlv8_iterator_consumes : forall s y,
+    step 255 s = Ok y ->
+    s = y_pre y ++ y_tag y :: y_len y :: y_last y ++ y_next y /\ length (y_next y) + 2 <= length s.
+Proof. intros s y H. split; [exact (proj1 (step_consume 255 s y H))|exact (step_progress 255 s y H)]. Qed.
+
+(* byte accounting of tlv_array on any input that it splits without IndexError: every
+   byte is in a yielded piece or is one of the two header bytes of a separator item,
+   and a last piece is yielded only if it is not empty *)
+Theorem tlv8_array_accounting : forall s its,
+    tlv8_array s = (its, FinOk) ->
+    exists q, length s = sumlen its + 2 * q
+              /\ (length its = q \/ (length its = S q /\ last its [] <> [])).
+Proof. intros s its H. exact (arr_count 255 (S (length s)) s [] its H). Qed.
+
+(* the fuels of the model (nesting depth of the schema, input length) never run out,
+   for ANY schema, bytes and value: decode/encode end in Ok, a library error class or
+   Crash (= IndexError/AttributeError of the real code), never OutOfFuel *)
+Theorem tlv8_decode_total : forall t b, tlv8_decode t b <> OutOfFuel.
+Proof. intros t b. exact (dec_never_fuel 255 (fuel_of t) t b (Nat.lt_succ_diag_r _)). Qed.
+
+Theorem tlv8_encode_total : forall t v, tlv8_encode t v <> OutOfFuel.
+Proof. intros t v. exact (enc_never_fuel 255 (fuel_of t) t v (Nat.lt_succ_diag_r _)). Qed.
+
+(* ---- the secondary codec of characteristic signatures (Model/Tlv8Sig.v) ----------- *)
+(* to_dict()["perms"] holds exactly the permissions whose bit is set, without repeats *)
+Theorem sig_perms_exact : forall props p, In p (perms_of props) <-> N.testbit props (perm_bit p) = true.
+Proof. exact perms_of_spec. Qed.
+
+Theorem sig_perms_nodup : forall props, NoDup (perms_of props).
+Proof. exact perms_of_nodup. Qed.
+
+(* _unpack_value(_pack_value(x)) = x for every format code and every value _pack_value
+   accepts (unsigned 8..64 bit, signed 32 bit, bool, float as raw bytes, str, data, raw) *)
+Theorem sig_value_pack_unpack : forall fmt x b,
+    sval_ok x = true -> pack_value fmt x = Ok b -> unpack_value fmt b = Ok x.
+Proof. exact pack_unpack. Qed.
+
+(* min_max_value returns the two bounds an accessory packed into the valid-range
+   descriptor, for the four unsigned formats *)
+Theorem sig_range_uint : forall c k lo hi blo bhi,
+    (c, k) = (4%N, 1) \/ (c, k) = (6%N, 2) \/ (c, k) = (8%N, 4) \/ (c, k) = (10%N, 8) ->
+    pack_uint k lo = Ok blo -> pack_uint k hi = Ok bhi ->
+    min_max (Some c) (Some (blo ++ bhi)) = Ok (Some (SInt lo, SInt hi)).
+Proof. exact min_max_uint. Qed.
 
 (* ---- non-vacuity ------------------------------------------------------------------ *)
 (* a list of structs with 510-byte values (two full fragments: 255*2) next to other
@@ -177,6 +237,15 @@ Proof.
   repeat constructor.
 Qed.
 
+(* a BLE signature: secure read+write+notify, hidden; uint16 in percent, range 0..1000, step 10, raw value 300 *)
+Example sig_nonvacuous :
+  to_dict Ble {| s_type := 8%N; s_iid := Some 51%N; s_props := 240%N; s_pf := Some [6; 0; 173; 39; 1; 0; 0]%N;
+                 s_range := Some [0; 0; 232; 3]%N; s_step := Some [10; 0]%N; s_raw := Some [44; 1]%N |}
+  = Ok {| o_type := 8%N; o_iid := Some 51%N; o_perms := [PR; PW; EV; HD]; o_bcast := false; o_disc := false;
+          o_format := Some FUint16; o_unit := Some UPercentage; o_value := Some (SInt 300%Z);
+          o_minstep := Some (SInt 10%Z); o_minmax := Some (SInt 0%Z, SInt 1000%Z) |}.
+Proof. vm_compute. reflexivity. Qed.
+
 Print Assumptions tlv8_roundtrip.
 Print Assumptions tlv8_roundtrip_depth.
 Print Assumptions tlv8_field_roundtrip.
@@ -191,6 +260,15 @@ Print Assumptions tlv8_sequ16_every_byte.
 Print Assumptions tlv8_sequ16_refuted.
 Print Assumptions tlv8_sequ16_refuted_cases.
 Print Assumptions tlv8_sequ16_single_id.
+Print Assumptions tlv8_sequ16_exact.
+Print Assumptions tlv8_iterator_consumes.
+Print Assumptions tlv8_array_accounting.
+Print Assumptions tlv8_decode_total.
+Print Assumptions tlv8_encode_total.
+Print Assumptions sig_perms_exact.
+Print Assumptions sig_perms_nodup.
+Print Assumptions sig_value_pack_unpack.
+Print Assumptions sig_range_uint.
 Print Assumptions tlv8_frag_boundary.
 Print Assumptions tlv8_iterator_items.
 Print Assumptions tlv8_array_split.
